@@ -76,7 +76,8 @@ DEC_PTR = '__CPROVER_decreases(__CPROVER_POINTER_OFFSET(end_) - __CPROVER_POINTE
 
 def typedefs(Int):
     c, u, mx = INT_TYPES[Int]
-    return 'typedef %s Int; typedef %s UInt;\n#define VP_MAX_Int %s\n' % (c, u, mx)
+    umx = {'unsigned': 'UINT_MAX', 'size_t': 'SIZE_MAX'}[u]
+    return 'typedef %s Int; typedef %s UInt;\n#define VP_MAX_Int %s\n#define VP_MAX_UInt %s\n' % (c, u, mx, umx)
 
 
 # ---------------------------------------------------------------------------- contracts (text reader)
@@ -93,6 +94,10 @@ RIWS = ('__CPROVER_requires(RD_LE && __CPROVER_w_ok(value_p, sizeof(*value_p))) 
         '__CPROVER_ensures(RD_LE && FWD) '
         '__CPROVER_ensures(__CPROVER_return_value == 0 ==> (ptr_ == __CPROVER_old(ptr_) && *value_p == __CPROVER_old(*value_p))) '
         '__CPROVER_ensures(__CPROVER_return_value != 0 ==> (*value_p >= 0 && *value_p <= %s)) '
+        # the number handed on is the number in the text: its last decimal digit is the last digit read (a value that wrapped around
+        # during accumulation must be rejected as too big, never accepted as another number)
+        '__CPROVER_ensures(__CPROVER_return_value != 0 ==> (__CPROVER_POINTER_OFFSET(ptr_) > __CPROVER_POINTER_OFFSET(__CPROVER_old(ptr_)) && '
+        '(int)(*value_p %% 10) == ptr_[-1] - \'0\')) '
         '__CPROVER_assigns(ptr_, *value_p)')
 C['ReadIntWithoutSign_int'] = ('bool ReadIntWithoutSign_int(int *value_p)', RIWS % 'INT_MAX')
 C['ReadIntWithoutSign_unsigned'] = ('bool ReadIntWithoutSign_unsigned(unsigned *value_p)', RIWS % 'UINT_MAX')
@@ -155,7 +160,8 @@ STUBS = {
 }
 for _T, _mx in (('int', 'INT_MAX'), ('unsigned', 'UINT_MAX'), ('size_t', 'SIZE_MAX')):
     STUBS['ReadIntWithoutSign_' + _T] = ('bool ReadIntWithoutSign_%s(%s *value_p) { ' % (_T, INT_TYPES[_T][0]) + PRECOND +
-                                         ' if (nondet_bool()) return 0; vp_advance(); %s v = nondet_%s(); __CPROVER_assume(v >= 0 && v <= %s); *value_p = v; return 1; }\n'
+                                         ' if (nondet_bool()) return 0; const char *vp_p0 = ptr_; vp_advance(); __CPROVER_assume(ptr_ > vp_p0 && ptr_[-1] >= \'0\' && ptr_[-1] <= \'9\'); '
+                                         '%s v = nondet_%s(); __CPROVER_assume(v >= 0 && v <= %s && (int)(v %% 10) == ptr_[-1] - \'0\'); *value_p = v; return 1; }\n'
                                          % (INT_TYPES[_T][0], {'int': 'int', 'unsigned': 'unsigned', 'size_t': 'size_t'}[_T], _mx))
 
 
@@ -200,7 +206,9 @@ def fn(name):
         Int = name.split('_', 1)[1]
         return Fn(NLR, r'bool ReadIntWithoutSign\(Int\s*&?\s*value\)', proto, contract=contract, subst=MU, refs={'value': 'value_p'},
                   loops={0: '__CPROVER_assigns(ptr_, c, result) __CPROVER_loop_invariant(RD_LE && c == *ptr_ && c >= \'0\' && c <= \'9\' && '
-                            '__CPROVER_POINTER_OFFSET(ptr_) >= __CPROVER_POINTER_OFFSET(__CPROVER_loop_entry(ptr_))) ' + DEC_PTR},
+                            '__CPROVER_POINTER_OFFSET(ptr_) >= __CPROVER_POINTER_OFFSET(__CPROVER_loop_entry(ptr_)) && '
+                            '((ptr_ == __CPROVER_loop_entry(ptr_) && result == 0) || (__CPROVER_POINTER_OFFSET(ptr_) > __CPROVER_POINTER_OFFSET(__CPROVER_loop_entry(ptr_)) && '
+                            '(int)(result % 10) == ptr_[-1] - \'0\'))) ' + DEC_PTR},
                   label='mp::internal::TextReader::ReadIntWithoutSign<Int>', inst='Int=%s' % INT_TYPES[Int][0], nmatches=1)
     if name == 'DoReadOptionalInt_int':
         return Fn(NLR, r'bool DoReadOptionalInt\(Int\s*&?\s*value\)', proto, contract=contract,
